@@ -1240,10 +1240,11 @@ func (m *model) isSentinelLoad(v ssa.Value) bool {
 // S25 conservation: path enumeration over the loop body with symbolic counter offsets.
 
 type pathState struct {
-	off  map[ssa.Value]int // value -> offset from its counter's value at the start of the iteration
-	ctr  map[ssa.Value]*counter
-	cell map[string]int // memory counters: cell key -> offset of the cell's current content
-	list int            // insertions - removals on the ready list so far
+	off   map[ssa.Value]int // value -> offset from its counter's value at the start of the iteration
+	ctr   map[ssa.Value]*counter
+	cell  map[string]int // memory counters: cell key -> offset of the cell's current content
+	list  int            // insertions - removals on the ready list so far
+	extra int            // residual contributed by helpers summarised as a whole (helperEffect)
 	// symbolic part: a helper that returns exactly the number of elements it put on the ready list
 	// contributes its (unknown) result n once to the list and, where that result is added to or
 	// subtracted from a counter, +-n to that counter
@@ -1252,7 +1253,7 @@ type pathState struct {
 }
 
 func (p *pathState) clone() *pathState {
-	q := &pathState{off: map[ssa.Value]int{}, ctr: map[ssa.Value]*counter{}, cell: map[string]int{}, list: p.list, symList: map[ssa.Value]int{}, symOff: map[ssa.Value]map[ssa.Value]int{}}
+	q := &pathState{off: map[ssa.Value]int{}, ctr: map[ssa.Value]*counter{}, cell: map[string]int{}, list: p.list, extra: p.extra, symList: map[ssa.Value]int{}, symOff: map[ssa.Value]map[ssa.Value]int{}}
 	for k, v := range p.cell {
 		q.cell[k] = v
 	}
@@ -1307,6 +1308,7 @@ func (m *model) ruleConservation(s *report.Sink) {
 		arm   string
 	}
 	budget := 20000
+	effMemo := map[*ssa.Function]*helperEff{}
 	var walk func(b *ssa.BasicBlock, pred *ssa.BasicBlock, st *pathState, entries map[*ssa.BasicBlock]*pathState, arm string)
 	// summary of list effects of a helper call (all paths must agree)
 	var calleeList func(fn *ssa.Function, depth int) (int, bool)
@@ -1425,7 +1427,7 @@ func (m *model) ruleConservation(s *report.Sink) {
 					st.symList[call] -= sign[c] * k // fold into one symbolic residual per call
 				}
 			}
-			r -= st.list
+			r += st.extra - st.list
 			res.paths[arm]++
 			for call, k := range st.symList {
 				if k != 0 {
@@ -1439,7 +1441,7 @@ func (m *model) ruleConservation(s *report.Sink) {
 		}
 		// inner loop header revisited: the iteration just walked must be balanced
 		if e, ok := entries[b]; ok && pred != nil {
-			r := -(st.list - e.list)
+			r := (st.extra - e.extra) - (st.list - e.list)
 			for k, c := range cellCtr {
 				r += sign[c] * (st.cell[k] - e.cell[k])
 			}
@@ -1530,17 +1532,31 @@ func (m *model) ruleConservation(s *report.Sink) {
 						st.list--
 					}
 				} else if callee := x.Call.StaticCallee(); callee != nil && callee.Pkg == m.pkg && callee.Blocks != nil {
-					d, ok := calleeList(callee, 0)
-					if !ok {
-						if m.returnsListDelta(callee) {
-							// n elements inserted, n returned: symbolic
-							st.symList[x]++
-							break
+					eff := m.helperEffect(callee, cellCtr, sign, 0, effMemo)
+					if eff.ok {
+						// the helper as a whole: the same residual on each of its paths; what the caller
+						// loaded from a counter the helper writes is stale from here on
+						st.extra += eff.r
+						for v, c := range st.ctr {
+							if c.phi == nil && eff.touched[c.cell] {
+								delete(st.ctr, v)
+								delete(st.off, v)
+								delete(st.symOff, v)
+							}
 						}
-						res.unk[arm] = append(res.unk[arm], fmt.Sprintf("%s: helper %s changes the ready list conditionally", m.ipos(x), callee.Name()))
-						return
+						break
 					}
-					st.list += d
+					if m.returnsListDelta(callee) {
+						// n elements inserted, n returned: symbolic
+						st.symList[x]++
+						break
+					}
+					if eff.definite {
+						res.bad[arm] = append(res.bad[arm], eff.why)
+					} else {
+						res.unk[arm] = append(res.unk[arm], fmt.Sprintf("%s: helper %s is not summarised: %s", m.ipos(x), callee.Name(), eff.why))
+					}
+					return
 				}
 			case *ssa.Return:
 				return // exits are S17's business
